@@ -46,9 +46,9 @@ def r01_1(ctx, p):
     ctx.rule("R01.1", "every concrete BaseStorage subclass defines every abstract method with the base signature")
     base = p.cls(BASE)
     abst = abstract_methods(base)
-    ctx.floor("R01.1", "abstract_methods", len(abst), 18)
+    ctx.floor("R01.1", "abstract_methods", len(abst), 18, exact=True)
     impls = [c for c in p.subclasses(base) if c.module.name.startswith("optuna.storages") or ctx.tier == "thorough"]
-    ctx.floor("R01.1", "concrete_backends", len([c for c in impls if c.module.name.startswith("optuna.storages")]), 5)
+    ctx.floor("R01.1", "concrete_backends", len([c for c in impls if c.module.name.startswith("optuna.storages")]), 5, exact=True)
     for c in impls:
         for m in abst:
             f = None
@@ -222,7 +222,7 @@ def r01_4(ctx, p):
                 ins.add(a.field)
     dl = im.methods["delete_study"]
     removed = {a.field for a in field_accesses(dl.node) if a.kind == "mutate"}
-    ctx.floor("R01.4", "inmem_containers", len(ins), 4)
+    ctx.floor("R01.4", "inmem_containers", len(ins), 4, exact=True)
     for c in sorted(ins):
         ctx.check(c in removed, "R01.4", dl.short, f"removes:{c}", message=f"InMemoryStorage.delete_study leaves entries in {c}", how="del statement on the container")
     # the per-trial map is cleaned for every trial of the study
@@ -318,7 +318,7 @@ def r01_4(ctx, p):
                             ok = True
             ctx.check(ok, "R01.4", c.module.relpath + "::" + c.name, f"cascade:{fk}",
                       message=f"{c.name} references {fk} but its relationship to {parent} has no delete cascade: rows survive delete_study", how="backref(cascade='all, delete-orphan')")
-    ctx.floor("R01.4", "rdb_child_models", n_child, 10)
+    ctx.floor("R01.4", "rdb_child_models", n_child, 10, exact=True)
 
 
 # ------------------------------------------------------------------------------------------------
@@ -442,7 +442,7 @@ def r01_6(ctx, p):
     opcls = mod.classes.get("JournalOperation")
     ctx.require(opcls is not None, "R01.6: JournalOperation vanished")
     members = [t.id for n in opcls.node.body if isinstance(n, ast.Assign) for t in n.targets if isinstance(t, ast.Name)]
-    ctx.floor("R01.6", "op_codes", len(members), 10)
+    ctx.floor("R01.6", "op_codes", len(members), 10, exact=True)
     js, rp = p.cls(JOURNAL), p.cls(REPLAY)
     producers = {}
     for m, f in js.methods.items():
@@ -514,7 +514,7 @@ def r01_7(ctx, p, rpc_of):
              "TrialState round trip is exhaustive and inverse")
     base, gp, sv, gc = p.cls(BASE), p.cls(GRPC), p.cls(SERVICER), p.cls(GCACHE)
     pr = protomod.load(p.repo)
-    ctx.floor("R01.7", "rpcs", len(pr.rpcs), 19)
+    ctx.floor("R01.7", "rpcs", len(pr.rpcs), 19, exact=True)
     # rpc -> backend method (from the servicer), client method -> rpc
     n = 0
     for rpc in sorted(pr.rpcs):
@@ -756,7 +756,7 @@ def r01_11(ctx, p):
         ctx.check(out == params, "R01.11", c.module.relpath + "::" + c.name, "asdict-keys-equal-ctor-params",
                   message=f"{name}: _asdict() yields keys {sorted(out)} but the constructor takes {sorted(params)}: json_to_distribution(cls(**attributes)) fails or drops a field",
                   how=f"{sorted(out)} == {sorted(params)}")
-    ctx.floor("R01.11", "distribution_classes", len(listed), 8)
+    ctx.floor("R01.11", "distribution_classes", len(listed), 8, exact=True)
 
 
 # ------------------------------------------------------------------------------------------------
